@@ -9,8 +9,10 @@ ID=$1; V=$2; SRC=/tmp/mut/$ID/$V; WT=/tmp/wt-verify-$ID-$V; OUT=/verif/seeded/$I
 rm -rf $WT; git -C /repo worktree add -q --detach $WT HEAD || exit 1
 cd $WT
 DEMOS=$(ls $SRC/*_test.go 2>/dev/null)
+if [ -n "${3:-}" ]; then DEMOS=$SRC/demo_test.go; fi
 DEST=$(grep -ohE '(tests|internal/[a-z_/0-9]+|store|imap|imap/command|rfcparser|rfc822|async)/[A-Za-z0-9_]+_test\.go' $SRC/README.md | head -1)
 [ -z "$DEST" ] && DEST=tests/seeded_${ID}${V}_test.go
+[ -n "${3:-}" ] && DEST=$3/x_test.go
 PKG=./$(dirname $DEST)/
 i=0; for d in $DEMOS; do i=$((i+1)); cp $d $(dirname $DEST)/seeded_${ID}${V}_${i}_test.go; done
 TESTS=$(grep -ohE '^func (Test[A-Za-z0-9_]+)' $DEMOS | sed 's/func //' | sort -u | tr '\n' '|' | sed 's/|$//')
